@@ -36,6 +36,43 @@ DWQ = ["entry", "raw entry " + dwforest.ROW_QUERY, "entry " + dwforest.ROW_QUERY
        "entry attribute value ?(type == T_DIE) parent*"]
 
 
+_SYN = {}
+
+
+def rejected_by_exception(q, msg):
+    """Is this rejection one that reaches zw_query_parse as an exception thrown
+    inside a lexer rule / parser action (the known leak), rather than through
+    bison's own error recovery?  Everything but a plain `syntax error` is; and a
+    `syntax error` is when the outer token stream parses (model of the scanner
+    and grammar, outer level only): then it was raised by the nested parse of an
+    embedded expression, inside the string rule of the outer lexer."""
+    if msg is None:
+        return False
+    if msg != "syntax error":
+        return True
+    b = q.encode("latin1") if isinstance(q, str) else bytes(q)
+    if b"%(" not in b:
+        return False
+    return _embedded_error(b, 0)
+
+
+def _embedded_error(b, depth):
+    """does some embedded expression of `b` (at any nesting) fail to lex/parse on its own?
+    (Lexer.analyse_deep gives those priority: they are met while the string is being lexed)"""
+    if b not in _SYN:
+        c14 = importlib.import_module("checks.C14")
+        _SYN[b] = c14.model_syn([b])[0]
+    verdict, toks = (_SYN[b] + ("",))[:2]
+    if depth > 0 and verdict != "OK":
+        return True
+    for t in toks.split(" "):
+        if t.startswith("STR:"):
+            for piece in t[4:].split(","):
+                if piece.startswith("S") and _embedded_error(bytes.fromhex(piece[1:]), depth + 1):
+                    return True
+    return False
+
+
 def corpus(ctx, quick):
     rng = ctx.sub_rng("c13")
     g = zgen.G(ctx.sub_rng("gen"), max_depth=3, illtyped=0.1)
@@ -123,8 +160,7 @@ def run(ctx):
             # the one that lost it: re-run the candidates one per process
             window = range(max(0, i - 6), i + 1)
             def by_exc(j):
-                m = san[j].d.get("compile_error")
-                return m is not None and m != "syntax error"
+                return rejected_by_exception(cases[j][0], san[j].d.get("compile_error"))
             if any(by_exc(j) for j in window):
                 leaks_known += 1
                 j = next(j for j in reversed(window) if by_exc(j))
@@ -141,7 +177,7 @@ def run(ctx):
         q, kw = cases[i]
         qq = q if isinstance(q, str) else bytes(q).decode("latin1")
         msg = r.d.get("compile_error")
-        by_exception = msg is not None and "syntax error" != msg
+        by_exception = rejected_by_exception(q, msg)
         if by_exception:
             leaks_known += 1
         kind = "leak-rejected-by-exception" if by_exception else "leak"
